@@ -19,10 +19,11 @@ Definition vmag (v : vec3 Q) : Q := Qmax' (Qabs (vx v)) (Qmax' (Qabs (vy v)) (Qa
 Definition mag (ps : list (vec3 Q)) : Q := fold_left (fun m p => Qmax' m (vmag p)) ps 1.
 
 Inductive case :=
-(* project_point_to_line(p, ref, a) and Line(ref, a).project(p) *)
-| CProj (p ref a : vec3 Q) (fn meth : list fl)
+(* project_point_to_line(p, ref, a) and Line(ref, a).project(p): the Line form goes through the constructor,
+   which raises ValueError for an almost-zero direction *)
+| CProj (p ref a : vec3 Q) (fn : list fl) (meth : result (list fl))
 (* kx3 points, one line: the function and Line.project *)
-| CProjStack (ps : list (vec3 Q)) (ref a : vec3 Q) (fn meth : list (list fl))
+| CProjStack (ps : list (vec3 Q)) (ref a : vec3 Q) (fn : list (list fl)) (meth : result (list (list fl)))
 (* kx3 points, kx3 lines *)
 | CProjPairs (ps refs alongs : list (vec3 Q)) (rows : list (list fl))
 (* Line(point, along): ValueError, or the two reference points *)
@@ -43,10 +44,12 @@ Definition check_case (c : case) : bool :=
   match c with
   | CProj p ref a fn meth =>
       let m := mag [p; ref; a] in
-      row_nan m (project_point_to_line QOps p ref a) fn && row_nan m (line_project QOps (MkLine ref a) p) meth
+      row_nan m (project_point_to_line QOps p ref a) fn &&
+      res_agree (row_nan m) (rmap (fun l => line_project QOps l p) (line_ctor QOps ref a)) meth
   | CProjStack ps ref a fn meth =>
       let m := mag (ref :: a :: ps) in
-      rows_nan m (project_points_to_line QOps ps ref a) fn && rows_nan m (line_project_stack QOps (MkLine ref a) ps) meth
+      rows_nan m (project_points_to_line QOps ps ref a) fn &&
+      res_agree (rows_nan m) (rmap (fun l => line_project_stack QOps l ps) (line_ctor QOps ref a)) meth
   | CProjPairs ps refs alongs rows =>
       rows_nan (mag (ps ++ refs ++ alongs)) (project_points_to_lines QOps ps refs alongs) rows
   | CLineCtor point along o =>
